@@ -254,12 +254,12 @@ U.fn('preprocessor.rs', 'PreProcessor::error',
 HELPER_ENS = [C('final(self).hadv(old(self))', BOTH)]
 U.fn('preprocessor.rs', 'PreProcessor::process_if',
      requires=['old(self).wf0()', C('6 * (old(self).open() + 1) <= old(self).pos()', 'C02', name='an #ifdef token (>= 6 bytes) was just consumed')],
-     ensures=HELPER_ENS + ['final(self).wf()', 'ret == TokenKind::PreProcessor || ret == TokenKind::Error', 'ret == TokenKind::Error ==> final(self).has_error()'],
+     ensures=HELPER_ENS + ['final(self).wf()', C('ret == TokenKind::PreProcessor || ret == TokenKind::Error', 'C01', name='a directive yields a PreProcessor (trivia) or an Error token, never a premature Eof'), 'ret == TokenKind::Error ==> final(self).has_error()'],
      prologue='proof { self.token_stream.lemma_len(); }')
 U.fn('preprocessor.rs', 'PreProcessor::process_define', requires=PP_REQ,
-     ensures=HELPER_ENS + ['final(self).wf()', 'final(self).open() == old(self).open()', 'ret == TokenKind::PreProcessor || ret == TokenKind::Error', 'ret == TokenKind::Error ==> final(self).has_error()'])
+     ensures=HELPER_ENS + ['final(self).wf()', 'final(self).open() == old(self).open()', C('ret == TokenKind::PreProcessor || ret == TokenKind::Error', 'C01', name='a directive yields a PreProcessor (trivia) or an Error token, never a premature Eof'), 'ret == TokenKind::Error ==> final(self).has_error()'])
 U.fn('preprocessor.rs', 'PreProcessor::process_else', requires=PP_REQ,
-     ensures=HELPER_ENS + ['final(self).wf()', 'final(self).open() <= old(self).open()', 'ret == TokenKind::PreProcessor || ret == TokenKind::Error', 'ret == TokenKind::Error ==> final(self).has_error()'])
+     ensures=HELPER_ENS + ['final(self).wf()', 'final(self).open() <= old(self).open()', C('ret == TokenKind::PreProcessor || ret == TokenKind::Error', 'C01', name='a directive yields a PreProcessor (trivia) or an Error token, never a premature Eof'), 'ret == TokenKind::Error ==> final(self).has_error()'])
 U.fn('preprocessor.rs', 'PreProcessor::process_eof', requires=PP_REQ,
      ensures=['final(self).wf()', 'final(self).inner() == old(self).inner()', 'ret == TokenKind::Eof || ret == TokenKind::Error',
               'ret == TokenKind::Error ==> final(self).has_error() && old(self).open() > 0 && final(self).open() == 0',
@@ -272,7 +272,7 @@ U.fn('preprocessor.rs', 'PreProcessor::next_not_trivia', requires=['old(self).wf
      loops={0: dict(invariant=['self.hadv(old(self))', 'self.perror() == old(self).perror()', 'self.open() == old(self).open()'], decreases='self.irank()')},
      prologue='proof { self.token_stream.lemma_len(); }')
 U.fn('preprocessor.rs', 'PreProcessor::eat_until_else_or_endif', requires=['old(self).wf()'],
-     ensures=HELPER_ENS + ['final(self).wf()', 'final(self).open() <= old(self).open()', 'ret == TokenKind::PreProcessor || ret == TokenKind::Error', 'ret == TokenKind::Error ==> final(self).has_error()'],
+     ensures=HELPER_ENS + ['final(self).wf()', 'final(self).open() <= old(self).open()', C('ret == TokenKind::PreProcessor || ret == TokenKind::Error', 'C01', name='a directive yields a PreProcessor (trivia) or an Error token, never a premature Eof'), 'ret == TokenKind::Error ==> final(self).has_error()'],
      loops={0: dict(invariant=['self.hadv(old(self))', 'self.wf()', 'self.open() <= old(self).open()', 'depth as int >= 1', '6 * (depth as int - 1) <= self.pos() - old(self).pos()', 'self.src().len() <= u32::MAX'],
                     decreases='self.irank()')},
      prologue='proof { self.token_stream.lemma_len(); }')
